@@ -9,6 +9,18 @@ BASE = D.datetime(2000, 1, 1, 9, 0, 0)
 def finite_rule_kw(rng, R, grid=False, maxlen=35):
     """keyword arguments of a rule with a small, quickly reached, finite occurrence list.
     grid=True draws starts/intervals from a small grid so that different rules collide on instants."""
+    if not grid and rng.random() < .08:
+        # finite only because it runs into the end of the calendar (no COUNT, no UNTIL)
+        freq = rng.choice([R.YEARLY, R.MONTHLY, R.WEEKLY, R.DAILY, R.HOURLY, R.MINUTELY, R.SECONDLY])
+        st = {R.YEARLY: D.datetime(9990, 3, 5, 6), R.MONTHLY: D.datetime(9998, 1, 31, 6), R.WEEKLY: D.datetime(9999, 9, 6, 6),
+              R.DAILY: D.datetime(9999, 12, 1, 6), R.HOURLY: D.datetime(9999, 12, 30, 6), R.MINUTELY: D.datetime(9999, 12, 31, 23, 20),
+              R.SECONDLY: D.datetime(9999, 12, 31, 23, 59, 30)}[freq]
+        kw = {'freq': freq, 'dtstart': st + D.timedelta(days=rng.randrange(2) if freq < R.MINUTELY and freq != R.HOURLY else 0)}
+        if freq == R.WEEKLY and rng.random() < .5:
+            kw['byweekday'] = [R.MO, R.FR]
+        if rng.random() < .3:
+            kw['interval'] = 2
+        return kw
     freq = rng.choice([R.DAILY, R.DAILY, R.WEEKLY, R.MONTHLY, R.HOURLY, R.YEARLY, R.MINUTELY])
     if grid:
         st = BASE + D.timedelta(days=rng.randrange(5), hours=rng.choice([0, 0, 0, 12]))
@@ -94,10 +106,16 @@ def m_getitem(L, i):
 def probe_times(rng, L, base=BASE):
     """query arguments: elements, neighbours one second off, far before / after"""
     pool = []
+
+    def shifted(x, **kw):
+        try:
+            return [x + D.timedelta(**kw)]
+        except OverflowError:      # next to datetime.max / datetime.min
+            return []
     if L:
         for x in rng.sample(L, min(4, len(L))):
-            pool += [x, x + D.timedelta(seconds=1), x - D.timedelta(seconds=1)]
-        pool += [L[0] - D.timedelta(days=400), L[-1] + D.timedelta(days=400), L[0], L[-1]]
+            pool += [x] + shifted(x, seconds=1) + shifted(x, seconds=-1)
+        pool += shifted(L[0], days=-400) + shifted(L[-1], days=400) + [L[0], L[-1]]
     else:
         pool += [base, base + D.timedelta(days=3)]
     return pool
